@@ -573,6 +573,30 @@ def expected_call(case, m):
     return xd, sigma
 
 
+def fitted_layout(case, impl):
+    """names of the parameters handed to the optimiser, in the documented order, and whether anis follows (dim-1 entries)"""
+    m = impl["model"]
+    names = ["var", "len_scale", "nugget"] + list(m.opt_arg)
+    sel = dict((nme, v) for nme, v in case["kwargs"]["select"])
+    nf = {nme for nme, v in sel.items() if v is not True}
+    fitted = [nme for nme in names if nme not in nf]
+    sill = case["kwargs"].get("sill", None)
+    constrained = not (sill is None or sill is True)
+    if constrained:
+        if "var" in nf and "nugget" in nf:
+            pass
+        elif "var" in nf:
+            fitted = [n_ for n_ in fitted if n_ != "nugget"]
+        elif "nugget" in nf:
+            fitted = [n_ for n_ in fitted if n_ != "var"]
+        else:
+            fitted = [n_ for n_ in fitted if n_ != "nugget"]
+    x, y = case_xy(case)
+    isdir = (m.dim > 1) and (x.size * m.dim == y.size)
+    fit_anis = bool(case["kwargs"].get("anis", True) is True and isdir)
+    return fitted, fit_anis, constrained
+
+
 def check_call_kwargs(case, impl):
     """probes that do not need a successful fit: data, weights and keywords handed to curve_fit are a function of the call's
     own arguments; the caller's curve_fit_kwargs dict is not altered"""
@@ -601,6 +625,27 @@ def check_call_kwargs(case, impl):
             out.append(("sigma", "weights given but absolute_sigma = %r" % (rec["absolute_sigma"],)))
     if sigma is None and rec["absolute_sigma"] is not None:
         out.append(("sigma", "no weights but absolute_sigma = %r handed to curve_fit" % (rec["absolute_sigma"],)))
+    # every entry of the bounds handed to curve_fit is the bound of ITS OWN parameter (set_arg_bounds is the documented way to
+    # restrict the fit; var <= sill when a sill is prescribed), and the start value lies inside them
+    fitted, fit_anis, constrained = fitted_layout(case, impl)
+    b = impl["bounds"]
+    bidx = {"var": 0, "len_scale": 1, "nugget": 2, "anis": 3}
+    for i_, o_ in enumerate(m.opt_arg):
+        bidx[o_] = 4 + i_
+    own = list(fitted) + (["anis"] * (m.dim - 1) if fit_anis else [])
+    if len(own) == len(rec["lo"]):
+        sill_v = expected_sill(case, impl) if constrained else None
+        for i_, nme in enumerate(own):
+            lo_e, hi_e = b[bidx[nme]][0], b[bidx[nme]][1]
+            if nme == "var" and constrained:
+                hi_e = sill_v
+            tol = 8 * 2.220446049250313e-16 * abs(hi_e) if (nme == "var" and constrained and case["kwargs"].get("sill") is False) else 0.0
+            if rec["lo"][i_] != lo_e or not (abs(rec["hi"][i_] - hi_e) <= tol or rec["hi"][i_] == hi_e):
+                out.append(("cf-bounds:%s" % ("anis" if nme == "anis" else "var" if nme == "var" else "other"),
+                            "entry %d of the bounds handed to curve_fit belongs to %s whose bounds are [%r, %r], but curve_fit got [%r, %r] "
+                            "(fitted: %r%s)" % (i_, nme, lo_e, hi_e, rec["lo"][i_], rec["hi"][i_], fitted, " + anis" if fit_anis else "")))
+            elif not (rec["lo"][i_] <= rec["p0"][i_] <= rec["hi"][i_]):
+                out.append(("cf-p0", "start value %r of %s outside the bounds [%r, %r] handed to curve_fit" % (rec["p0"][i_], nme, rec["lo"][i_], rec["hi"][i_])))
     user = dict(ftol=1e-15, xtol=1e-15, gtol=1e-15) if case["kwargs"].get("tight") else {}
     user.update(case["kwargs"].get("cfkw") or {})
     exp_keys = {"f", "bounds", "p0", "xdata", "ydata", "loss", "max_nfev", "method"} | set(user) | ({"sigma", "absolute_sigma"} if sigma is not None else set())
@@ -1060,6 +1105,43 @@ def recovery_cases(rng, tier):
     return cases
 
 
+def bounds_window_cases(rng, thorough):
+    """exact data, every parameter fitted (anis too for directional data); ONE parameter at a time gets customised bounds: a
+    window around its own true value that excludes the true values of the other parameters.  If an entry of the bounds handed
+    to the optimiser belonged to another parameter, the fit could not reach the truth."""
+    cases = []
+    specs = [("Exponential", {}), ("Matern", {"nu": 1.2})] + ([("Stable", {"alpha": 1.4}), ("Gaussian", {})] if thorough else [])
+    for cls, opt in specs:
+        for kind in ("dir", "iso", "latlon"):
+            dim = int(rng.integers(2, 4)) if kind == "dir" else int(rng.integers(1, 4))
+            geo = 1.0
+            truth = dict(var=2.0, len_scale=6.0 if kind != "latlon" else 0.3, nugget=0.8, **opt)
+            if kind == "dir":
+                truth["anis"] = [0.3, 0.45][: dim - 1]
+            L = truth["len_scale"]
+            windows = {"var": [1.2, 5.0, "cc"], "len_scale": [0.55 * L, 3.0 * L, "cc"], "nugget": [0.5, 1.5, "cc"]}
+            if kind == "dir":
+                windows["anis"] = [0.1, 0.7, "cc"]
+            if "nu" in opt:
+                windows["nu"] = [1.0, 1.6, "cc"]
+            if "alpha" in opt:
+                windows["alpha"] = [1.0, 1.8, "cc"]
+            for wpar, win in windows.items():
+                start = {}
+                for k_, v_ in truth.items():
+                    if k_ == "anis":
+                        start[k_] = [float(min(max(a * rng.uniform(0.9, 1.1), 0.12), 0.68)) for a in v_]
+                    else:
+                        lo_, hi_ = windows[k_][0], windows[k_][1]
+                        start[k_] = float(min(max(v_ * rng.uniform(0.9, 1.1), lo_ * 1.02), hi_ * 0.98))
+                kw = dict(select=[], init_guess="current", loss=str(rng.choice(["soft_l1", "linear"])), method="trf", tight=True)
+                c = basic_case(rng, cls, dim, truth, start, {wpar: list(win)}, kw, kind=kind, nb=30, noise=0.0, geo=geo)
+                c["fit_shape"] = True
+                c["cell"] = "bounds-window:%s:%s:%s" % (cls, kind, wpar)
+                cases.append(c)
+    return cases
+
+
 def run_recovery(ctx, case):
     impl = run_impl(case)
     key = ("recovery", case["cls"], "dir" if case["isdir"] else "latlon" if case["latlon"] else "iso", case["dim"])
@@ -1084,7 +1166,7 @@ def run_recovery(ctx, case):
             bad.append("anis fitted %r truth %r" % (list(impl["dict"]["anis"]), t["anis"]))
     if bad:
         ctx.violation("probe: recovery of generating parameters", "; ".join(bad), case, key="recovery:%s:%s" % (case["cls"], key[2]))
-    for k2, text in check_property(ctx, case, dict(impl, isdir=case["isdir"])):
+    for k2, text in check_property(ctx, case, dict(impl, isdir=case["isdir"])) + check_call_kwargs(case, impl):
         ctx.violation("probe: property statement (recovery run)", text, case, key="prop:" + k2)
 
 
@@ -1299,6 +1381,20 @@ def dtype_cases(rng, thorough):
                 c["xdtype"], c["ydtype"] = xk, yk
                 c["cell"] = "dtype:%s:x=%s:y=%s" % (kind, xk, yk)
                 cases.append(c)
+    # bin counts 1, 2, dim, dim+1 (n == dim: a square (dim, n) block of directional variograms; C and Fortran order)
+    for kind in ("iso", "dir"):
+        for dim in (2, 3):
+            for nb in sorted({1, 2, dim, dim + 1}):
+                for yk in ("float64", "noncontig"):
+                    truth = dict(var=float(rng.uniform(0.6, 2.0)), len_scale=float(rng.uniform(2.0, 4.0)), nugget=0.0)
+                    if kind == "dir":
+                        truth["anis"] = [float(a) for a in rng.uniform(0.4, 0.9, dim - 1)]
+                    start = {k: (float(v * rng.uniform(0.8, 1.25)) if k != "anis" else v) for k, v in truth.items()}
+                    kw = dict(select=[["nugget", False]], method="trf", loss="linear", init_guess="current")
+                    c = basic_case(rng, "Exponential", dim, truth, start, {}, kw, kind=kind, nb=nb, noise=0.0, int_x=True)
+                    c["xdtype"], c["ydtype"] = str(rng.choice(["float64", "int64", "list"])), yk
+                    c["cell"] = "dtype:%s:dim%d:nbins=%d:y=%s" % (kind, dim, nb, yk)
+                    cases.append(c)
     return cases
 
 
@@ -1326,6 +1422,12 @@ def history_step(ctx, drv, case, m, ostate, fresh, shared_cf, earlier):
 
 
 def apply_change(m, ch):
+    """in-place change; returns the object to go on with (a deepcopy / pickle round trip gives a NEW object)"""
+    import pickle
+    if ch[0] == "deepcopy":
+        return copy.deepcopy(m)
+    if ch[0] == "pickle":
+        return pickle.loads(pickle.dumps(m))
     try:
         if ch[0] == "len_scale":
             m.len_scale = ch[1]
@@ -1337,6 +1439,7 @@ def apply_change(m, ch):
             m.set_arg_bounds(nugget=[0.0, ch[1], "cc"])
     except ValueError:
         pass
+    return m
 
 
 def run_history(ctx, drv, rng, ostate, fresh=None, steps=4):
@@ -1387,10 +1490,11 @@ def run_history(ctx, drv, rng, ostate, fresh=None, steps=4):
         case["change"] = None
         if step > 0:
             r = rng.random()
-            ch = (("len_scale", float(m.len_scale * rng.uniform(0.5, 2.0))) if r < 0.3 else ("nugget", float(rng.uniform(0.0, 0.5))) if r < 0.5
-                  else ("var", float(rng.uniform(0.3, 3.0))) if r < 0.7 else ("nugget_bounds", float(rng.uniform(2.0, 9.0))) if r < 0.85 else None)
+            ch = (("len_scale", float(m.len_scale * rng.uniform(0.5, 2.0))) if r < 0.25 else ("nugget", float(rng.uniform(0.0, 0.5))) if r < 0.4
+                  else ("var", float(rng.uniform(0.3, 3.0))) if r < 0.55 else ("nugget_bounds", float(rng.uniform(2.0, 9.0))) if r < 0.7
+                  else ("deepcopy", 0.0) if r < 0.8 else ("pickle", 0.0) if r < 0.9 else None)
             if ch:
-                apply_change(m, ch)
+                m = apply_change(m, ch)
                 case["change"] = list(ch)
         case["cell"] = "history:%s:step%d:%s" % (cls, step, case["entry"])
         case["shared_cf"] = use_shared
@@ -1414,7 +1518,7 @@ def replay_history(ctx, drv, case, ostate, fresh):
     for i, c in enumerate(seq):
         c = copy.deepcopy(c)
         if i > 0 and c.get("change"):
-            apply_change(m, c["change"])
+            m = apply_change(m, c["change"])
         last = i == len(seq) - 1
         tb = history_step(ctx if last else quiet, drv, c, m, ostate, fresh if last else None,
                           shared_cf if c.get("shared_cf") else None, seq[:i])
@@ -1530,6 +1634,12 @@ def run(ctx):
         for rep in range(6 if thorough else 1):
             for case in recovery_cases(rng, ctx.tier):
                 run_recovery(ctx, case)
+        for case in bounds_window_cases(rng, thorough):
+            run_recovery(ctx, case)
+            ostate["copy"] = build_model(case, "start")
+            tb = run_case(ctx, drv, copy.deepcopy(case), stage="bounds-window")
+            tie_broken += tb
+        C.log("[C10] recovery: %.1fs" % (time.time() - t0))
         # ---- malformed calls: must raise ValueError, nothing else
         malformed(ctx, rng)
     finally:
